@@ -17,7 +17,8 @@ func init() {
 			"D2 the retry loops of remoteShardGroup and the fan-outs of ClusterShardMapping/ClusterStoreMapping return success only after every call of the round returned nil, mark the failing node dirty before re-partitioning, and re-partition only over clean owners; " +
 			"D3 on every path through one iteration of the shard-assignment loops a shard is appended to exactly one node bucket (the no-owner skip is a recorded finding; giving up returns nil from shuffleShards); the 'source already mapped' guard reads the map the loop fills; " +
 			"D4 the value-type dispatch on the remote read path is exhaustive over the five iterator/point types. " +
-			"NOT decided: liveness of owners, equality of the merged result with a single-node result, truncated streams (ReaderIterator maps EOF to end of data).",
+			"D6 a remote iterator that breaks off makes the query fail: a coordinator handler that streams a query iterator to the connection writes to the connection when that call fails, before it returns (the reader takes a clean end of the connection for the end of the data; found and fixed in a6058eb). " +
+			"NOT decided: liveness of owners, equality of the merged result with a single-node result, a connection cut by the network or a crash of the serving node exactly at a frame boundary (the point stream has no end marker the reader insists on).",
 		RuleText:    "obligation = (rule, function, site); nil/outcome dataflow per decode site; per-iteration min/max count of bucket appends over the loop's path graph; case sets of type switches against the iterator family",
 		Assumptions: commonAssumptions,
 	}, runC05)
@@ -479,6 +480,8 @@ func runC05(c *core.Ctx) {
 		n := connPoisonRule(c, "failed-exchange-poisons-connection")
 		c.Floor("exchange sites on pooled connections", n, 28)
 	})
+
+	c.Clause("D6", func() { runStreamFailureSignalled(c) })
 
 	c.Clause("D4", func() {
 		family := []string{"Float", "Integer", "Unsigned", "String", "Boolean"}
